@@ -347,18 +347,18 @@ class Ref:
 def score_gt(a, b, tol=1e-9):
     """a scores strictly higher than b, by more than the tolerance (lexicographic)."""
     for u, v in zip(a, b):
-        if math.isclose(u, v, rel_tol=tol, abs_tol=1e-12):
+        if math.isclose(u, v, rel_tol=tol, abs_tol=0.0):      # purely relative: responses may be in any unit
             continue
         return u > v
     return False
 
 
-def close(a, b, tol=RTOL):
+def close(a, b, tol=RTOL, abs_tol=1e-12):
     if a is None or b is None:
         return a is b
     if a != a and b != b:
         return True
-    return math.isclose(a, b, rel_tol=tol, abs_tol=1e-12)
+    return math.isclose(a, b, rel_tol=tol, abs_tol=abs_tol)
 
 
 # ------------------------------------------------------------------ oracles
@@ -493,16 +493,16 @@ def oracle_attached(case, ref, obs):
         if d['sx'] != x or d['sy'] != y:
             v.append(('score-series', where + ' series held by the score differ from the reported geos'))
         c, ri = ref.corr_ri(T, C)
-        if not (close(d['corr'], c) and close(d['ri'], ri)):
+        if not (close(d['corr'], c) and close(d['ri'], ri, abs_tol=0.0)):
             v.append(('corr-impact', where + ' corr=%r ri=%r expected corr=%r ri=%r' % (d['corr'], d['ri'], c, ri)))
-        if not (close(d['scorr'], c) and close(d['sri'], ri)):
+        if not (close(d['scorr'], c) and close(d['sri'], ri, abs_tol=0.0)):
             v.append(('score-corr-impact', where + ' score.diag corr=%r ri=%r expected %r %r' % (d['scorr'], d['sri'], c, ri)))
         s = ref.lib_score(T, C)
         exp_tests = [bool(t) for t in s['tests']]
         if [bool(t) for t in d['tests']] != exp_tests:
             v.append(('verdicts', where + ' tests=%s expected=%s' % (d['tests'], exp_tests)))
         exp = ref.score_tuple(T, C, case['method'])
-        if len(d['score']) != 6 or not all(close(a, b) for a, b in zip(d['score'], exp)):
+        if len(d['score']) != 6 or not all(close(a, b, abs_tol=0.0) for a, b in zip(d['score'], exp)):
             v.append(('score', where + ' score=%s expected=%s' % (d['score'], list(exp))))
         for tag in ('id_diag', 'id_sdiag'):
             if d[tag] in ids:
